@@ -367,7 +367,9 @@ fn drive5(ctx: &mut Ctx, desc: &str, f: &dyn Fn(Option<u64>) -> Result<Out, Stri
     };
     ctx.case(&format!("{desc};e=-"), || f(None).map(|o| CaseInfo::new(false, format!("fault-free:{}", if o.cands.is_empty() { "no-drops" } else { "drops" }))));
     ctx.count("candidates", cands.len() as u64);
-    for &e in &cands {
+    // every candidate for up to 64; beyond that the lattice of fault indices over the candidate list
+    let picked: Vec<u64> = crate::c04::fault_indices(cands.len() as u64).into_iter().map(|i| cands[i as usize]).collect();
+    for &e in &picked {
         let info = std::cell::Cell::new((false, 0u32));
         ctx.case(&format!("{desc};e={e}"), || {
             let o = f(Some(e))?;
@@ -455,6 +457,42 @@ pub fn run(ctx: &mut Ctx) {
             let kn = ["map-owned", "zip-owned-owned", "fold-owned", "map-boxed", "zip-keep-left", "fold-boxed", "zip-owned-ref", "zip-owned-mut", "zip-ref-owned", "zip-mut-owned", "zip-box-box"][kind as usize];
             drive5(ctx, &format!("C05;{kn}-dropping-closure;N={};E=Tr4", N::USIZE), &|bm| func_drop::<N, Tr<0>>(kind, bm));
             drive5(ctx, &format!("C05;{kn}-dropping-closure;N={};E=TrZ", N::USIZE), &|bm| func_drop::<N, TrZ>(kind, bm));
+        }
+    });
+    // large lengths: position lattice x skip lattice x candidate lattice
+    for_ns!(ctx, [U100, U1000], [], N => {
+        let n = N::USIZE;
+        for pre in [false, true] {
+            for (f, b) in [(0usize, 0usize), (1, 0), (0, 1), (n / 2, 0), (0, n / 2), (n / 3, n / 3), (n - 2, 1), (n, 0)] {
+                let len = n - f - b;
+                let mut ops = vec![IOp::Count, IOp::Last, IOp::Drop, IOp::FoldDrop, IOp::RfoldDrop, IOp::CloneDrop];
+                let mut skips = vec![0, 1, 2, len / 2, len.saturating_sub(1), len, len + 1, 63, 64, 65];
+                skips.retain(|&k| k <= len + 1);
+                skips.sort();
+                skips.dedup();
+                for &k in &skips {
+                    ops.push(IOp::Nth(k));
+                    ops.push(IOp::NthBack(k));
+                }
+                for op in ops {
+                    let pos = format!("N={n};origin={};f={f};b={b};op={}", if pre { "clone" } else { "fresh" }, op.name());
+                    drive5(ctx, &format!("C05;iter;{pos};E=Tr4"), &|bm| iter_op::<N, Tr<0>>(pre, f, b, op, bm));
+                }
+            }
+        }
+        for kind in 0u8..2 {
+            let kn = ["array", "boxed-array"][kind as usize];
+            drive5(ctx, &format!("C05;drop-{kn};N={n};E=Tr4"), &|bm| drop_whole::<N, Tr<0>>(kind, bm));
+        }
+        for kind in [0u8, 1, 2, 6, 8] {
+            let kn = ["map-owned", "zip-owned-owned", "fold-owned", "map-boxed", "zip-keep-left", "fold-boxed", "zip-owned-ref", "zip-owned-mut", "zip-ref-owned"][kind as usize];
+            drive5(ctx, &format!("C05;{kn}-dropping-closure;N={n};E=Tr4"), &|bm| func_drop::<N, Tr<0>>(kind, bm));
+        }
+        for entry in [0u8, 2] {
+            let en = ["try_from_iter", "from_iter", "try_boxed_from_iter"][entry as usize];
+            for c in [n - 1, n + 1] {
+                drive5(ctx, &format!("C05;collect-{en};N={n};c={c};E=Tr4"), &|bm| collect_err::<N, Tr<0>>(entry, c, bm));
+            }
         }
     });
     // remove/swap_remove with an out-of-range index tear the array down *while unwinding*; by
